@@ -1,6 +1,6 @@
 #!/bin/bash
 # MANIFEST.setup_cmd: build the Lean model, the proofs and the native driver from files on disk (offline).
-set -e
+set -e -o pipefail
 cd "$(dirname "$0")"
 export PYTHONDONTWRITEBYTECODE=1
 /venv/bin/python -m harness.translate /repo
